@@ -254,6 +254,9 @@ impl Ctx {
             let _ = f.write_all(s.as_bytes());
         }
         self.evals += 1;
+        let batch = matches!(case.mon.as_str(), "enum" | "exh" | "all-masks" | "sweep-char" | "sweep-byte");
+        if batch {
+        } else {
         self.sample_seen += 1;
         if self.samples_first.len() < 3 {
             self.samples_first.push(case.to_json());
@@ -264,6 +267,7 @@ impl Ctx {
                 let k = self.sample_rng.below(4);
                 self.samples_res[k] = case.to_json();
             }
+        }
         }
         let exec = self.exec;
         self.cur = Some(case);
@@ -276,6 +280,23 @@ impl Ctx {
             self.fail(&clause, vec![], format!("a call panicked outside any guarded region: {}", msg));
         }
         self.cur = None;
+    }
+
+    /// For batch cases (exhaustive enumerations): should the expanded sub-case about to be
+    /// executed be written into the samples?  (reservoir decision; cheap when false)
+    pub fn want_sample(&mut self) -> bool {
+        self.sample_seen += 1;
+        self.samples_first.len() < 3 || self.sample_rng.below(self.sample_seen as usize) < 4
+    }
+    pub fn note_sample(&mut self, case: Case) {
+        if self.samples_first.len() < 3 {
+            self.samples_first.push(case.to_json());
+        } else if self.samples_res.len() < 4 {
+            self.samples_res.push(case.to_json());
+        } else {
+            let k = self.sample_rng.below(4);
+            self.samples_res[k] = case.to_json();
+        }
     }
 
     pub fn call(&mut self, name: &'static str) {
